@@ -136,17 +136,29 @@ package index
 //@ func (rli *RecordListIter) Done() (r bool)  property C09
 //@   ensures r == (rli.pos >= len(rli.records))
 
-//@ func (rli *RecordListIter) Next() (rec Record)
-//@   abstract gap GAP-RL: the byte-level encoding implements the record view
-//@   trusted decoding of one record (ReadRecord) is part of GAP-RL; only the cursor movement matters here
+// The record-list cursor, verified at the byte level: RLI(it) says the cursor stands on an entry
+// boundary of a well-formed list.
+//@ macro RLB(it) = bytes(it.records)
+//@ macro RLI(it) = rbytes(RLB(it)) && rwf(RLB(it)) && 0 <= ridx(RLB(it), it.pos) && ridx(RLB(it), it.pos) <= rn(RLB(it)) && rst(RLB(it), ridx(RLB(it), it.pos)) == it.pos
+//@ func (rli *RecordListIter) Next() (rec Record)  property C08 C09
+//@   requires RLI(rli) && rli.pos < len(rli.records)
 //@   modifies rli.pos
-//@   ensures rli.pos > old(rli.pos)
+//@   ensures @decodes rec.Pos == old(rli.pos) && bytes(rec.Key) == rkey(RLB(rli), old(ridx(RLB(rli), rli.pos))) && keyof(rec.Block) == rblk(RLB(rli), old(ridx(RLB(rli), rli.pos)))
+//@   ensures @advances RLI(rli) && ridx(RLB(rli), rli.pos) == old(ridx(RLB(rli), rli.pos)) + 1 && rli.pos > old(rli.pos) && rli.records == old(rli.records)
+
+//@ func (rl RecordList) Iter() (it *RecordListIter)  property C08 C09
+//@   fresh it
+//@   ensures it != nil && it.records == rl && it.pos == 0
 
 // Iterator.Next (C09): iteration reports done only when every bucket has been passed, never
 // moves backwards, and every bucket it passes without yielding a record is empty (zero
 // position) or holds an empty record list (gE, ghost).
 //@ func (iter *Iterator) Next() (rec Record, done bool, err error)  property C09
 //@   local requires iter.index != nil && inv(iter.index) && iter.index.sizeBits <= 31 && iter.bucketIndex <= len(iter.index.buckets)
+//@   local requires @cursor iter.rlIter != nil ==> RLI(iter.rlIter)
+//@   ensures @cursor iter.rlIter != nil ==> RLI(iter.rlIter)
+// input invariant: the record list of a bucket, read from the pool or from disk, is well-formed
+//@   assume at after call index.RecordList.Iter#0: @format-bucket-record-list rbytes(bytes($a0)) && rwf(bytes($a0))
 //@   modifies iter.bucketIndex, iter.rlIter, fp(FC), heap("index.RecordListIter")
 //@   ghost var gE (Array Int Bool) = nopos()
 //@   ghost at after call index.RecordListIter.Done#1: gE = ite($r0, gE[iter.bucketIndex - 1 := true], gE)
@@ -295,12 +307,17 @@ package index
 //@   inline
 
 // Byte-level functions, stated over the abstract view (GAP-RL until their bodies are verified).
-//@ func (rl RecordList) FindKeyPosition(key []byte) (pos int, prev Record, hasPrev bool)
-//@   abstract gap GAP-RL: the byte-level encoding implements the record view
-//@   requires rwf(bytes(rl))
-//@   abstract ensures pos == rst(bytes(rl), rfind(bytes(rl), bytes(key)))
-//@   abstract ensures hasPrev == (rfind(bytes(rl), bytes(key)) > 0)
-//@   abstract ensures hasPrev ==> prev.Pos == rst(bytes(rl), rfind(bytes(rl), bytes(key)) - 1) && bytes(prev.Key) == rkey(bytes(rl), rfind(bytes(rl), bytes(key)) - 1) && keyof(prev.Block) == rblk(bytes(rl), rfind(bytes(rl), bytes(key)) - 1)
+//@ func (rl RecordList) FindKeyPosition(key []byte) (pos int, prev Record, hasPrev bool)  property C08
+//@   define B() = bytes(rl)
+//@   define K() = bytes(key)
+//@   define I() = ridx(B(), rli.pos)
+//@   requires rbytes(bytes(rl)) && rwf(bytes(rl))
+//@   ensures @position pos == rst(B(), rfind(B(), K()))
+//@   ensures @has-prev hasPrev == (rfind(B(), K()) > 0)
+//@   ensures @prev hasPrev ==> prev.Pos == rst(B(), rfind(B(), K()) - 1) && bytes(prev.Key) == rkey(B(), rfind(B(), K()) - 1) && keyof(prev.Block) == rblk(B(), rfind(B(), K()) - 1)
+//@   loop 0 invariant @cursor rli != nil && fresh(rli) && rli.records == rl && RLI(rli)
+//@   loop 0 invariant @not-greater-so-far forall j int :: 0 <= j && j < I() ==> !blt(K(), rkey(B(), j))
+//@   loop 0 invariant @prev-record hasPrev == (I() > 0) && (hasPrev ==> prev.Pos == rst(B(), I() - 1) && bytes(prev.Key) == rkey(B(), I() - 1) && keyof(prev.Block) == rblk(B(), I() - 1))
 
 // ReadRecord is verified against its body at the byte level (prelude reclistbytes.smt2 gives the
 // byte-level meaning of the view; rbytes(B) is true of every B and only serves as a trigger).
@@ -418,18 +435,37 @@ package index
 
 // Lookups (C08): Get / GetRecord return the LAST entry whose stored key is a prefix of the key
 // (the early break is justified by sortedness).
-//@ func (rl RecordList) Get(key []byte) (blk types.Block, found bool)
-//@   abstract gap GAP-RL: the byte-level encoding implements the record view
-//@   requires rwf(bytes(rl)) && RLsorted(bytes(rl))
-//@   abstract ensures found == (rlast(bytes(rl), bytes(key)) >= 0)
-//@   abstract ensures found ==> keyof(blk) == rblk(bytes(rl), rlast(bytes(rl), bytes(key)))
+// Get / GetRecord verified against their bodies: gm (ghost) is the index of the last entry seen
+// so far whose stored key is a prefix of the key; the early break is justified by sortedness
+// (every later stored key is greater than one that is greater than the key and not a prefix of it).
+//@ func (rl RecordList) Get(key []byte) (blk types.Block, found bool)  property C08
+//@   define B() = bytes(rl)
+//@   define K() = bytes(key)
+//@   define I() = ridx(B(), rli.pos)
+//@   requires rbytes(bytes(rl)) && rwf(bytes(rl)) && RLsorted(bytes(rl))
+//@   ghost var gm int = 0 - 1
+//@   ghost at after call bytes.HasPrefix#0: gm = ite($r0, ridx(B(), rli.pos) - 1, gm)
+//@   ensures @found found == (rlast(B(), K()) >= 0)
+//@   ensures @block found ==> keyof(blk) == rblk(B(), rlast(B(), K()))
+//@   internal ensures @last-match 0 - 1 <= gm && gm < rn(B()) && (gm >= 0 ==> isprefix(rkey(B(), gm), K())) && (forall j int :: gm < j && j < rn(B()) ==> !isprefix(rkey(B(), j), K())) && gm == rlast(B(), K())
+//@   loop 0 invariant @cursor rli != nil && fresh(rli) && rli.records == rl && RLI(rli)
+//@   loop 0 invariant @last-match-so-far 0 - 1 <= gm && gm < I() && matched == (gm >= 0) && (gm >= 0 ==> isprefix(rkey(B(), gm), K()) && keyof(blk) == rblk(B(), gm))
+//@   loop 0 invariant @no-later-match-so-far forall j int :: gm < j && j < I() ==> !isprefix(rkey(B(), j), K())
 
-//@ func (rl RecordList) GetRecord(key []byte) (r *Record)
-//@   abstract gap GAP-RL: the byte-level encoding implements the record view
-//@   requires rwf(bytes(rl)) && RLsorted(bytes(rl))
+//@ func (rl RecordList) GetRecord(key []byte) (r *Record)  property C08
+//@   define B() = bytes(rl)
+//@   define K() = bytes(key)
+//@   define I() = ridx(B(), rli.pos)
+//@   requires rbytes(bytes(rl)) && rwf(bytes(rl)) && RLsorted(bytes(rl))
 //@   fresh r
-//@   abstract ensures (r != nil) == (rlast(bytes(rl), bytes(key)) >= 0)
-//@   abstract ensures r != nil ==> r.Pos == rst(bytes(rl), rlast(bytes(rl), bytes(key))) && bytes(r.Key) == rkey(bytes(rl), rlast(bytes(rl), bytes(key))) && keyof(r.Block) == rblk(bytes(rl), rlast(bytes(rl), bytes(key)))
+//@   ghost var gm int = 0 - 1
+//@   ghost at after call bytes.HasPrefix#0: gm = ite($r0, ridx(B(), rli.pos) - 1, gm)
+//@   ensures @found (r != nil) == (rlast(B(), K()) >= 0)
+//@   ensures @record r != nil ==> r.Pos == rst(B(), rlast(B(), K())) && bytes(r.Key) == rkey(B(), rlast(B(), K())) && keyof(r.Block) == rblk(B(), rlast(B(), K()))
+//@   internal ensures @last-match 0 - 1 <= gm && gm < rn(B()) && (gm >= 0 ==> isprefix(rkey(B(), gm), K())) && (forall j int :: gm < j && j < rn(B()) ==> !isprefix(rkey(B(), j), K())) && gm == rlast(B(), K())
+//@   loop 0 invariant @cursor rli != nil && fresh(rli) && rli.records == rl && RLI(rli)
+//@   loop 0 invariant @last-match-so-far 0 - 1 <= gm && gm < I() && (r != nil) == (gm >= 0) && (r == nil || fresh(r)) && (gm >= 0 ==> isprefix(rkey(B(), gm), K()) && r.Pos == rst(B(), gm) && bytes(r.Key) == rkey(B(), gm) && keyof(r.Block) == rblk(B(), gm))
+//@   loop 0 invariant @no-later-match-so-far forall j int :: gm < j && j < I() ==> !isprefix(rkey(B(), j), K())
 
 // lookup_own (the C08 statement): under the representation invariant every present key
 // resolves to its own entry - no other entry's stored key is a prefix of it after it.
